@@ -295,6 +295,10 @@ where
                 return Err("Security param must at least be 128");
             }
 
+            if security_param > 256 {
+                return Err("Security param must at most be 256");
+            }
+
             if num_proofs != security_param {
                 return Err("Inconsistent number of proofs, must be equal to the security parameter");
             }
